@@ -31,6 +31,7 @@ type Engine struct {
 	repo      string
 	verif     string
 	outBase   string
+	boundedProp string // property the bounded complement is being run for (passed to the harness)
 	fset      *token.FileSet
 	pkgs      []*Pkg
 	pkgByName map[string]*types.Package
